@@ -51,6 +51,17 @@ def replay_state(st):
                         if np.max(np.abs(hit[k] - a * Bq[k])) > 1e-9 * (1 + a) * 4:
                             bad.append(("C17.boundary-multiple", dict(op="B_with_P", **w), (a * Bq[k]).tolist(), hit[k].tolist(), q))
                 X = np.asarray(dreye.proj_B_to_hull(Bq.copy(), E.copy()), float)
+                # the same (integer-valued) queries handed over as an integer array, and read-only
+                Xi = np.asarray(dreye.proj_B_to_hull(Bq.astype(int), E.copy()), float)
+                ro = Bq.copy()
+                ro.setflags(write=False)
+                Xr = np.asarray(dreye.proj_B_to_hull(ro, E.copy()), float)
+                if Xi.shape != X.shape or np.max(np.abs(Xi - X)) > 1e-9 or np.max(np.abs(Xr - X)) > 1e-12:
+                    bad.append(("C17.nearest-point", dict(representation="int / read-only queries", **w), X.tolist(), Xi.tolist(), None))
+                if st["origin_inside"]:
+                    ali = np.asarray(dreye.alpha_for_B_with_P(Bq.astype(int), E.copy()), float)
+                    if np.max(np.abs(ali - al)) > 1e-12 * (1 + np.max(np.abs(al))):
+                        bad.append(("C17.boundary-multiple", dict(representation="int queries", **w), al.tolist(), ali.tolist(), None))
                 events.append(dict(ev="proj", P=[[int(v) for v in p] for p in P], bs=[[int(v) for v in b] for b in Bq],
                                    xs=[[int(round(v * S)) for v in x] for x in X], S=S, tol=TOL, meta=w))
             except Exception as ex:
